@@ -169,8 +169,8 @@ theorem walk_alive (sel : Store K E → K → List (K × E))
 
 /-! ## One lemma per operation -/
 
-theorem step_new (sel : Store K E → K → List (K × E)) (st st' : OwnSt K E) (i : Nat) (k : K)
-    (h : InvU st) (hs : st.step sel (.new i k) = some st') : InvU st' := by
+theorem step_new (sel : Store K E → K → List (K × E)) (mutF : Store K E → K → K → StoreOp E → Store K E) (st st' : OwnSt K E) (i : Nat) (k : K)
+    (h : InvU st) (hs : st.step sel mutF (.new i k) = some st') : InvU st' := by
   simp only [OwnSt.step] at hs
   split at hs
   · cases hs
@@ -195,20 +195,20 @@ theorem step_new (sel : Store K E → K → List (K × E)) (st st' : OwnSt K E) 
     subst hx
     exact ⟨List.mem_append_right _ (List.mem_singleton.mpr rfl), fun hr => hk (hw.rc _ hr)⟩
 
-theorem step_clone (sel : Store K E → K → List (K × E)) (st st' : OwnSt K E) (a b : Nat)
-    (h : InvU st) (hs : st.step sel (.clone a b) = some st') : InvU st' := by
+theorem step_clone (sel : Store K E → K → List (K × E)) (mutF : Store K E → K → K → StoreOp E → Store K E) (st st' : OwnSt K E) (a b : Nat)
+    (h : InvU st) (hs : st.step sel mutF (.clone a b) = some st') : InvU st' := by
   simp only [OwnSt.step, Option.some.injEq] at hs
   subst hs
   exact inv_set h b fun k hk => slot_alive h hk
 
-theorem step_drop (sel : Store K E → K → List (K × E)) (st st' : OwnSt K E) (i : Nat)
-    (h : InvU st) (hs : st.step sel (.drop i) = some st') : InvU st' := by
+theorem step_drop (sel : Store K E → K → List (K × E)) (mutF : Store K E → K → K → StoreOp E → Store K E) (st st' : OwnSt K E) (i : Nat)
+    (h : InvU st) (hs : st.step sel mutF (.drop i) = some st') : InvU st' := by
   simp only [OwnSt.step, Option.some.injEq] at hs
   subst hs
   exact inv_set h i fun k hk => by cases hk
 
-theorem step_connect (sel : Store K E → K → List (K × E)) (st st' : OwnSt K E) (a b : Nat) (e : E)
-    (hs : st.step sel (.connect a b e) = some st') :
+theorem step_connect (sel : Store K E → K → List (K × E)) (mutF : Store K E → K → K → StoreOp E → Store K E) (st st' : OwnSt K E) (a b : Nat) (e : E)
+    (hs : st.step sel mutF (.connect a b e) = some st') :
     st'.slots = st.slots ∧ st'.released = st.released ∧ st'.created = st.created := by
   simp only [OwnSt.step] at hs
   split at hs
@@ -217,17 +217,17 @@ theorem step_connect (sel : Store K E → K → List (K × E)) (st st' : OwnSt K
     exact ⟨rfl, rfl, rfl⟩
   · cases hs
 
-theorem step_connect_inv (sel : Store K E → K → List (K × E)) (st st' : OwnSt K E) (a b : Nat) (e : E)
-    (h : InvU st) (hs : st.step sel (.connect a b e) = some st') : InvU st' := by
-  obtain ⟨h1, h2, h3⟩ := step_connect sel st st' a b e hs
+theorem step_connect_inv (sel : Store K E → K → List (K × E)) (mutF : Store K E → K → K → StoreOp E → Store K E) (st st' : OwnSt K E) (a b : Nat) (e : E)
+    (h : InvU st) (hs : st.step sel mutF (.connect a b e) = some st') : InvU st' := by
+  obtain ⟨h1, h2, h3⟩ := step_connect sel mutF st st' a b e hs
   have hh : st'.held = st.held := by simp [OwnSt.held, h1]
   have hc : ∀ k, st'.count k = st.count k := fun k => by simp [OwnSt.count, hh]
   unfold InvU
   simp only [h2, h3, hh, hc]
   exact h
 
-theorem step_insert (sel : Store K E → K → List (K × E)) (st st' : OwnSt K E) (g a : Nat)
-    (h : InvU st) (hs : st.step sel (.insert g a) = some st') : InvU st' := by
+theorem step_insert (sel : Store K E → K → List (K × E)) (mutF : Store K E → K → K → StoreOp E → Store K E) (st st' : OwnSt K E) (g a : Nat)
+    (h : InvU st) (hs : st.step sel mutF (.insert g a) = some st') : InvU st' := by
   simp only [OwnSt.step] at hs
   split at hs
   · next u hu =>
@@ -245,14 +245,14 @@ theorem step_insert (sel : Store K E → K → List (K × E)) (st st' : OwnSt K 
         exact slot_alive h (i := a) (by rw [hu]; exact List.mem_singleton.mpr rfl)
   · cases hs
 
-theorem step_remove (sel : Store K E → K → List (K × E)) (st st' : OwnSt K E) (g : Nat) (k : K)
-    (h : InvU st) (hs : st.step sel (.remove g k) = some st') : InvU st' := by
+theorem step_remove (sel : Store K E → K → List (K × E)) (mutF : Store K E → K → K → StoreOp E → Store K E) (st st' : OwnSt K E) (g : Nat) (k : K)
+    (h : InvU st) (hs : st.step sel mutF (.remove g k) = some st') : InvU st' := by
   simp only [OwnSt.step, Option.some.injEq] at hs
   subst hs
   exact inv_set h g fun x hx => slot_alive h (List.mem_filter.mp hx).1
 
-theorem step_get (sel : Store K E → K → List (K × E)) (st st' : OwnSt K E) (g : Nat) (k : K) (d : Nat)
-    (h : InvU st) (hs : st.step sel (.get g k d) = some st') : InvU st' := by
+theorem step_get (sel : Store K E → K → List (K × E)) (mutF : Store K E → K → K → StoreOp E → Store K E) (st st' : OwnSt K E) (g : Nat) (k : K) (d : Nat)
+    (h : InvU st) (hs : st.step sel mutF (.get g k d) = some st') : InvU st' := by
   simp only [OwnSt.step, Option.some.injEq] at hs
   subst hs
   refine inv_set h d fun x hx => ?_
@@ -263,10 +263,10 @@ theorem step_get (sel : Store K E → K → List (K × E)) (st st' : OwnSt K E) 
     exact slot_alive h (i := g) (by simpa using hc)
   · cases hx
 
-theorem step_edgeOf (sel : Store K E → K → List (K × E))
+theorem step_edgeOf (sel : Store K E → K → List (K × E)) (mutF : Store K E → K → K → StoreOp E → Store K E)
     (hsel : ∀ s k p, p ∈ sel s k → p ∈ (s.get k).out ++ (s.get k).inn)
     (st st' : OwnSt K E) (a d : Nat)
-    (h : InvU st) (hs : st.step sel (.edgeOf a d) = some st') : InvU st' := by
+    (h : InvU st) (hs : st.step sel mutF (.edgeOf a d) = some st') : InvU st' := by
   simp only [OwnSt.step] at hs
   split at hs
   · next u hu =>
@@ -292,10 +292,10 @@ theorem step_edgeOf (sel : Store K E → K → List (K × E))
         · exact hva
   · cases hs
 
-theorem step_pathTo (sel : Store K E → K → List (K × E))
+theorem step_pathTo (sel : Store K E → K → List (K × E)) (mutF : Store K E → K → K → StoreOp E → Store K E)
     (hsel : ∀ s k p, p ∈ sel s k → p ∈ (s.get k).out ++ (s.get k).inn)
     (st st' : OwnSt K E) (a : Nat) (t : K) (d : Nat)
-    (h : InvU st) (hs : st.step sel (.pathTo a t d) = some st') : InvU st' := by
+    (h : InvU st) (hs : st.step sel mutF (.pathTo a t d) = some st') : InvU st' := by
   simp only [OwnSt.step] at hs
   split at hs
   · next u hu =>
@@ -324,10 +324,10 @@ theorem step_pathTo (sel : Store K E → K → List (K × E))
       · cases hs
   · cases hs
 
-theorem step_searchTo (sel : Store K E → K → List (K × E))
+theorem step_searchTo (sel : Store K E → K → List (K × E)) (mutF : Store K E → K → K → StoreOp E → Store K E)
     (hsel : ∀ s k p, p ∈ sel s k → p ∈ (s.get k).out ++ (s.get k).inn)
     (st st' : OwnSt K E) (a : Nat) (t : K) (d : Nat)
-    (h : InvU st) (hs : st.step sel (.searchTo a t d) = some st') : InvU st' := by
+    (h : InvU st) (hs : st.step sel mutF (.searchTo a t d) = some st') : InvU st' := by
   simp only [OwnSt.step] at hs
   split at hs
   · next u hu =>
@@ -364,10 +364,156 @@ theorem step_searchTo (sel : Store K E → K → List (K × E))
       · cases hs
   · cases hs
 
-theorem step_orderOf (sel : Store K E → K → List (K × E))
+theorem step_orderOf (sel : Store K E → K → List (K × E)) (mutF : Store K E → K → K → StoreOp E → Store K E)
     (hsel : ∀ s k p, p ∈ sel s k → p ∈ (s.get k).out ++ (s.get k).inn)
     (st st' : OwnSt K E) (a d : Nat)
-    (h : InvU st) (hs : st.step sel (.orderOf a d) = some st') : InvU st' := by
+    (h : InvU st) (hs : st.step sel mutF (.orderOf a d) = some st') : InvU st' := by
+  simp only [OwnSt.step] at hs
+  split at hs
+  · next u hu =>
+    have hua : st.alive u = true :=
+      slot_alive h (i := a) (by rw [hu]; exact List.mem_singleton.mpr rfl)
+    split at hs
+    · cases hs
+    · next hn =>
+      have hnd : st.noDangling = true := by simpa using hn
+      split at hs
+      · next ns r hp =>
+        injection hs with hs
+        subst hs
+        obtain ⟨_, hreach, _⟩ := Order.nodes_exactly_reach' _ _ _ _ _ _ _ hp
+        rw [Order.accAdj_true] at hreach
+        exact inv_set h d fun k hk => reach_alive sel hsel hnd hua ((hreach k).mp hk)
+      · cases hs
+  · cases hs
+
+theorem step_storeOp (sel : Store K E → K → List (K × E)) (mutF : Store K E → K → K → StoreOp E → Store K E)
+    (st st' : OwnSt K E) (a b : Nat) (m : StoreOp E)
+    (hs : st.step sel mutF (.storeOp a b m) = some st') :
+    st'.slots = st.slots ∧ st'.released = st.released ∧ st'.created = st.created := by
+  simp only [OwnSt.step] at hs
+  split at hs
+  · split at hs
+    · cases hs
+    · injection hs with hs
+      subst hs
+      exact ⟨rfl, rfl, rfl⟩
+  · cases hs
+
+theorem step_storeOp_inv (sel : Store K E → K → List (K × E)) (mutF : Store K E → K → K → StoreOp E → Store K E)
+    (st st' : OwnSt K E) (a b : Nat) (m : StoreOp E)
+    (h : InvU st) (hs : st.step sel mutF (.storeOp a b m) = some st') : InvU st' := by
+  obtain ⟨h1, h2, h3⟩ := step_storeOp sel mutF st st' a b m hs
+  have hh : st'.held = st.held := by simp [OwnSt.held, h1]
+  have hc : ∀ k, st'.count k = st.count k := fun k => by simp [OwnSt.count, hh]
+  unfold InvU
+  simp only [h2, h3, hh, hc]
+  exact h
+
+/-- the refusal of a store operation does not depend on what the operation does to the lists -/
+theorem step_storeOp_indep (sel : Store K E → K → List (K × E)) (mutF mutF' : Store K E → K → K → StoreOp E → Store K E)
+    (st st' : OwnSt K E) (a b : Nat) (m : StoreOp E)
+    (hs : st.step sel mutF (.storeOp a b m) = some st') :
+    ∃ st'', st.step sel mutF' (.storeOp a b m) = some st'' ∧
+      st''.slots = st'.slots ∧ st''.released = st'.released ∧ st''.created = st'.created := by
+  simp only [OwnSt.step] at hs ⊢
+  split at hs
+  · next u v hu hv =>
+    split at hs
+    · cases hs
+    · next hn =>
+      injection hs with hs
+      subst hs
+      refine ⟨{ st with s := mutF' st.s u v m }, ?_, rfl, rfl, rfl⟩
+      simp only [hn]
+      rfl
+  · cases hs
+
+theorem step_find (sel : Store K E → K → List (K × E)) (mutF : Store K E → K → K → StoreOp E → Store K E)
+    (hsel : ∀ s k p, p ∈ sel s k → p ∈ (s.get k).out ++ (s.get k).inn)
+    (st st' : OwnSt K E) (a : Nat) (k : K) (d : Nat)
+    (h : InvU st) (hs : st.step sel mutF (.find a k d) = some st') : InvU st' := by
+  simp only [OwnSt.step] at hs
+  split at hs
+  · next u hu =>
+    split at hs
+    · cases hs
+    · next hn =>
+      have hn' : st.neighboursAlive u = true := by simpa using hn
+      injection hs with hs
+      subst hs
+      refine inv_set h d fun x hx => ?_
+      split at hx
+      · next hany =>
+        rw [List.mem_singleton] at hx
+        subst hx
+        obtain ⟨p, hp, hpk⟩ := List.any_eq_true.mp hany
+        have hpk' : p.1 = x := by simpa using hpk
+        rw [← hpk']
+        exact step_alive sel hsel hn' hp
+      · cases hx
+  · cases hs
+
+/-- whatever `search_path()` / `search_cycle()` of bfs and dfs return is a walk from the root -/
+theorem searchPath_walk (adj : K → List (K × E)) (acc : K → K → E → Bool) (nval : K → Int) (kind : Kind)
+    (hk : kind = .bfs ∨ kind = .dfs) (root : K) (target : Option K) (cycle : Bool) (fuel : Nat)
+    (p : List (Edge K E)) (run : Run K E)
+    (h : searchPath adj acc nval kind root target cycle fuel = some (some p, run)) :
+    ∃ t, Walk (accAdj adj acc) root t p := by
+  obtain ⟨h1, h2⟩ := bfs_searchPath_some adj acc nval root target cycle fuel h
+  cases hf : run.found with
+  | false => rw [hf] at h2; cases h2
+  | true =>
+    rw [hf] at h2
+    have h2' : p = backtrack run.st.tree := by simpa using h2
+    subst h2'
+    rcases hk with rfl | rfl
+    · obtain ⟨t, _, hp⟩ := Bfs.run_sound adj acc nval root target cycle fuel run h1 hf
+      exact ⟨t, hp.2⟩
+    · obtain ⟨t, _, hp⟩ := Dfs.run_sound adj acc nval root target cycle fuel run h1 hf
+      exact ⟨t, hp.2⟩
+
+theorem step_pathOf (sel : Store K E → K → List (K × E)) (mutF : Store K E → K → K → StoreOp E → Store K E)
+    (hsel : ∀ s k p, p ∈ sel s k → p ∈ (s.get k).out ++ (s.get k).inn)
+    (st st' : OwnSt K E) (kind : Kind) (cyc : Bool) (a : Nat) (t : K) (d : Nat)
+    (h : InvU st) (hs : st.step sel mutF (.pathOf kind cyc a t d) = some st') : InvU st' := by
+  simp only [OwnSt.step] at hs
+  split at hs
+  · next u hu =>
+    have hua : st.alive u = true :=
+      slot_alive h (i := a) (by rw [hu]; exact List.mem_singleton.mpr rfl)
+    split at hs
+    · cases hs
+    · next hn =>
+      have hnd : st.noDangling = true := by simpa using hn
+      split at hs
+      · cases hs
+      · next hkind =>
+        have hk : kind = .bfs ∨ kind = .dfs := by
+          cases kind <;> simp at hkind ⊢
+        split at hs
+        · next p r hp =>
+          injection hs with hs
+          subst hs
+          obtain ⟨t', hwalk⟩ := searchPath_walk _ _ _ kind hk _ _ _ _ _ _ hp
+          rw [Bfs.accAdj_true] at hwalk
+          have hal := walk_alive sel hsel hnd hua hwalk
+          refine inv_set h d fun k hk => ?_
+          obtain ⟨x, hx, hkx⟩ := List.mem_flatMap.mp hk
+          simp only [List.mem_cons, List.not_mem_nil, or_false] at hkx
+          rcases hkx with rfl | rfl
+          · exact (hal x hx).1
+          · exact (hal x hx).2
+        · injection hs with hs
+          subst hs
+          exact inv_set h d fun k hk => by cases hk
+        · cases hs
+  · cases hs
+
+theorem step_orderPost (sel : Store K E → K → List (K × E)) (mutF : Store K E → K → K → StoreOp E → Store K E)
+    (hsel : ∀ s k p, p ∈ sel s k → p ∈ (s.get k).out ++ (s.get k).inn)
+    (st st' : OwnSt K E) (a d : Nat)
+    (h : InvU st) (hs : st.step sel mutF (.orderPost a d) = some st') : InvU st' := by
   simp only [OwnSt.step] at hs
   split at hs
   · next u hu =>
@@ -391,70 +537,88 @@ end Own
 
 /-! ## The lemmas `Props/C19.lean` refers to -/
 
-theorem Own.inv_step' (sel : Store K E → K → List (K × E))
+theorem Own.inv_step' (sel : Store K E → K → List (K × E)) (mutF : Store K E → K → K → StoreOp E → Store K E)
     (hsel : ∀ s k p, p ∈ sel s k → p ∈ (s.get k).out ++ (s.get k).inn)
-    (st st' : OwnSt K E) (op : OwnOp K E) (h : Own.InvU st) (hs : st.step sel op = some st') :
+    (st st' : OwnSt K E) (op : OwnOp K E) (h : Own.InvU st) (hs : st.step sel mutF op = some st') :
     Own.InvU st' := by
   cases op with
-  | new i k => exact Own.step_new sel st st' i k h hs
-  | clone a b => exact Own.step_clone sel st st' a b h hs
-  | drop i => exact Own.step_drop sel st st' i h hs
-  | connect a b e => exact Own.step_connect_inv sel st st' a b e h hs
-  | insert g a => exact Own.step_insert sel st st' g a h hs
-  | remove g k => exact Own.step_remove sel st st' g k h hs
-  | get g k d => exact Own.step_get sel st st' g k d h hs
-  | edgeOf a d => exact Own.step_edgeOf sel hsel st st' a d h hs
-  | pathTo a t d => exact Own.step_pathTo sel hsel st st' a t d h hs
-  | searchTo a t d => exact Own.step_searchTo sel hsel st st' a t d h hs
-  | orderOf a d => exact Own.step_orderOf sel hsel st st' a d h hs
+  | new i k => exact Own.step_new sel mutF st st' i k h hs
+  | clone a b => exact Own.step_clone sel mutF st st' a b h hs
+  | drop i => exact Own.step_drop sel mutF st st' i h hs
+  | connect a b e => exact Own.step_connect_inv sel mutF st st' a b e h hs
+  | insert g a => exact Own.step_insert sel mutF st st' g a h hs
+  | remove g k => exact Own.step_remove sel mutF st st' g k h hs
+  | get g k d => exact Own.step_get sel mutF st st' g k d h hs
+  | edgeOf a d => exact Own.step_edgeOf sel mutF hsel st st' a d h hs
+  | pathTo a t d => exact Own.step_pathTo sel mutF hsel st st' a t d h hs
+  | searchTo a t d => exact Own.step_searchTo sel mutF hsel st st' a t d h hs
+  | orderOf a d => exact Own.step_orderOf sel mutF hsel st st' a d h hs
+  | storeOp a b m => exact Own.step_storeOp_inv sel mutF st st' a b m h hs
+  | find a k d => exact Own.step_find sel mutF hsel st st' a k d h hs
+  | pathOf kind cyc a t d => exact Own.step_pathOf sel mutF hsel st st' kind cyc a t d h hs
+  | orderPost a d => exact Own.step_orderPost sel mutF hsel st st' a d h hs
 
 theorem Own.inv_init : Own.InvU ({} : OwnSt K E) := by
   refine ⟨List.nodup_nil, List.nodup_nil, ?_, ?_, ?_⟩ <;> intro k hk <;> cases hk
 
-theorem Own.inv_foldl (sel : Store K E → K → List (K × E))
+theorem Own.inv_foldl (sel : Store K E → K → List (K × E)) (mutF : Store K E → K → K → StoreOp E → Store K E)
     (hsel : ∀ s k p, p ∈ sel s k → p ∈ (s.get k).out ++ (s.get k).inn)
     (ops : List (OwnOp K E)) (st : OwnSt K E) (h : Own.InvU st) :
-    Own.InvU (ops.foldl (fun st op => (st.step sel op).getD st) st) := by
+    Own.InvU (ops.foldl (fun st op => (st.step sel mutF op).getD st) st) := by
   induction ops generalizing st with
   | nil => exact h
   | cons op ops ih =>
     rw [List.foldl_cons]
     apply ih
-    cases hs : st.step sel op with
+    cases hs : st.step sel mutF op with
     | none => exact h
-    | some st' => exact Own.inv_step' sel hsel st st' op h hs
+    | some st' => exact Own.inv_step' sel mutF hsel st st' op h hs
 
-theorem Own.inv_run' (sel : Store K E → K → List (K × E))
+theorem Own.inv_run' (sel : Store K E → K → List (K × E)) (mutF : Store K E → K → K → StoreOp E → Store K E)
     (hsel : ∀ s k p, p ∈ sel s k → p ∈ (s.get k).out ++ (s.get k).inn)
-    (ops : List (OwnOp K E)) : Own.InvU (OwnSt.run sel ops) :=
-  Own.inv_foldl sel hsel ops {} Own.inv_init
+    (ops : List (OwnOp K E)) : Own.InvU (OwnSt.run sel mutF ops) :=
+  Own.inv_foldl sel mutF hsel ops {} Own.inv_init
 
-theorem Own.no_premature_release' (sel : Store K E → K → List (K × E))
+theorem Own.no_premature_release' (sel : Store K E → K → List (K × E)) (mutF : Store K E → K → K → StoreOp E → Store K E)
     (hsel : ∀ s k p, p ∈ sel s k → p ∈ (s.get k).out ++ (s.get k).inn)
-    (ops : List (OwnOp K E)) (k : K) (hk : k ∈ (OwnSt.run sel ops).held) :
-    k ∉ (OwnSt.run sel ops).released :=
-  (Own.W_of_inv (Own.inv_run' sel hsel ops)).hr k hk
+    (ops : List (OwnOp K E)) (k : K) (hk : k ∈ (OwnSt.run sel mutF ops).held) :
+    k ∉ (OwnSt.run sel mutF ops).released :=
+  (Own.W_of_inv (Own.inv_run' sel mutF hsel ops)).hr k hk
 
-theorem Own.all_released_at_end' (sel : Store K E → K → List (K × E))
+theorem Own.all_released_at_end' (sel : Store K E → K → List (K × E)) (mutF : Store K E → K → K → StoreOp E → Store K E)
     (hsel : ∀ s k p, p ∈ sel s k → p ∈ (s.get k).out ++ (s.get k).inn)
-    (ops : List (OwnOp K E)) (hempty : (OwnSt.run sel ops).held = []) :
-    ∀ k, k ∈ (OwnSt.run sel ops).created ↔ k ∈ (OwnSt.run sel ops).released := by
-  obtain ⟨_, _, h3, _, h5⟩ := Own.inv_run' sel hsel ops
+    (ops : List (OwnOp K E)) (hempty : (OwnSt.run sel mutF ops).held = []) :
+    ∀ k, k ∈ (OwnSt.run sel mutF ops).created ↔ k ∈ (OwnSt.run sel mutF ops).released := by
+  obtain ⟨_, _, h3, _, h5⟩ := Own.inv_run' sel mutF hsel ops
   intro k
   constructor
   · intro hk
     exact (h5 k hk).mpr (by simp [OwnSt.count, hempty])
   · exact h3 k
 
-theorem Own.edges_do_not_own' (sel : Store K E → K → List (K × E)) (st st' : OwnSt K E) (a b : Nat) (e : E)
-    (hs : st.step sel (.connect a b e) = some st') :
+theorem Own.edges_do_not_own' (sel : Store K E → K → List (K × E)) (mutF : Store K E → K → K → StoreOp E → Store K E) (st st' : OwnSt K E) (a b : Nat) (e : E)
+    (hs : st.step sel mutF (.connect a b e) = some st') :
     st'.slots = st.slots ∧ st'.released = st.released ∧ st'.created = st.created :=
-  Own.step_connect sel st st' a b e hs
+  Own.step_connect sel mutF st st' a b e hs
 
-theorem Own.held_alive' (sel : Store K E → K → List (K × E))
+theorem Own.store_ops_do_not_own' (sel : Store K E → K → List (K × E)) (mutF : Store K E → K → K → StoreOp E → Store K E)
+    (st st' : OwnSt K E) (a b : Nat) (m : StoreOp E)
+    (hs : st.step sel mutF (.storeOp a b m) = some st') :
+    st'.slots = st.slots ∧ st'.released = st.released ∧ st'.created = st.created :=
+  Own.step_storeOp sel mutF st st' a b m hs
+
+theorem Own.accounting_ignores_store' (sel : Store K E → K → List (K × E))
+    (mutF mutF' : Store K E → K → K → StoreOp E → Store K E)
+    (st st' : OwnSt K E) (a b : Nat) (m : StoreOp E)
+    (hs : st.step sel mutF (.storeOp a b m) = some st') :
+    ∃ st'', st.step sel mutF' (.storeOp a b m) = some st'' ∧
+      st''.slots = st'.slots ∧ st''.released = st'.released ∧ st''.created = st'.created :=
+  Own.step_storeOp_indep sel mutF mutF' st st' a b m hs
+
+theorem Own.held_alive' (sel : Store K E → K → List (K × E)) (mutF : Store K E → K → K → StoreOp E → Store K E)
     (hsel : ∀ s k p, p ∈ sel s k → p ∈ (s.get k).out ++ (s.get k).inn)
-    (ops : List (OwnOp K E)) (i : Nat) (k : K) (hk : k ∈ (OwnSt.run sel ops).slot i) :
-    (OwnSt.run sel ops).alive k = true :=
-  Own.slot_alive (Own.inv_run' sel hsel ops) hk
+    (ops : List (OwnOp K E)) (i : Nat) (k : K) (hk : k ∈ (OwnSt.run sel mutF ops).slot i) :
+    (OwnSt.run sel mutF ops).alive k = true :=
+  Own.slot_alive (Own.inv_run' sel mutF hsel ops) hk
 
 end G
